@@ -328,7 +328,7 @@ def _gen_annotations(rng, spec, rich):
         if rng.random() < 0.45:
             count = rng.randrange(1, 5)
             cursor = 0
-            for di in range(count):
+            for _ in range(count):
                 if cursor >= aa - 4:
                     break
                 s = rng.randrange(cursor, min(aa - 4, cursor + 10) + 1)
